@@ -398,4 +398,178 @@ theorem index_size (adds : List (Nat × Nat)) (hr : InRange adds) :
   subst heq
   simp only [LtP] at hab; omega
 
+/-! ### the index is a function of the SET of recorded pairs; multiset form of "without duplicates" -/
+
+/-- two strictly sorted lists with the same elements are equal -/
+theorem eq_of_sorted_of_mem_iff : ∀ (l₁ l₂ : List (Nat × Nat)), l₁.Pairwise LtP → l₂.Pairwise LtP →
+    (∀ p, p ∈ l₁ ↔ p ∈ l₂) → l₁ = l₂
+  | [], [], _, _, _ => rfl
+  | [], b :: _, _, _, h => by have := (h b).2 (by simp); simp at this
+  | a :: _, [], _, _, h => by have := (h a).1 (by simp); simp at this
+  | a :: l₁, b :: l₂, h₁, h₂, h => by
+    rw [List.pairwise_cons] at h₁ h₂
+    have hab : a = b := by
+      have ha := (h a).1 (by simp)
+      have hb := (h b).2 (by simp)
+      simp only [List.mem_cons] at ha hb
+      rcases ha with ha | ha
+      · exact ha
+      · rcases hb with hb | hb
+        · exact hb.symm
+        · have x := h₁.1 b hb
+          have y := h₂.1 a ha
+          simp only [LtP] at x y; omega
+    subst hab
+    congr 1
+    refine eq_of_sorted_of_mem_iff l₁ l₂ h₁.2 h₂.2 fun p => ?_
+    constructor
+    · intro hp
+      have := (h p).1 (List.mem_cons_of_mem _ hp)
+      simp only [List.mem_cons] at this
+      rcases this with rfl | this
+      · have x := h₁.1 p hp; simp only [LtP] at x; omega
+      · exact this
+    · intro hp
+      have := (h p).2 (List.mem_cons_of_mem _ hp)
+      simp only [List.mem_cons] at this
+      rcases this with rfl | this
+      · have x := h₂.1 p hp; simp only [LtP] at x; omega
+      · exact this
+
+theorem rep_congr {s : Stash} {a b : List (Nat × Nat)} (h : Rep s a) (hab : ∀ p, p ∈ a ↔ p ∈ b) : Rep s b :=
+  ⟨fun p => by rw [h.m32, hab], fun p => by rw [h.m64, hab]⟩
+
+theorem has64_congr {a b : List (Nat × Nat)} (hab : ∀ p, p ∈ a ↔ p ∈ b) : Has64 a ↔ Has64 b := by
+  constructor <;> rintro ⟨p, hp, h⟩
+  · exact ⟨p, (hab p).1 hp, h⟩
+  · exact ⟨p, (hab p).2 hp, h⟩
+
+/-- `build_member_to_parent_index()` is canonical: stashes that hold the same SET of pairs give the same index -/
+theorem m2p_canonical {s t : Stash} {a : List (Nat × Nat)} (hs : Rep s a) (ht : Rep t a) :
+    s.buildMemberToParent = t.buildMemberToParent := by
+  have hst := eq_of_sorted_of_mem_iff _ _ (store_spec hs).1 (store_spec ht).1
+    (fun p => by rw [(store_spec hs).2, (store_spec ht).2])
+  have he : s.map64.isEmpty = t.map64.isEmpty := by
+    rw [Bool.eq_iff_iff, isEmpty_iff_not_has64 hs, isEmpty_iff_not_has64 ht]
+  unfold Stash.buildMemberToParent Index.store at *
+  by_cases h1 : s.map64.isEmpty = true
+  · have h2 : t.map64.isEmpty = true := he ▸ h1
+    simp only [h1, h2, if_true] at hst ⊢
+    rw [hst]
+  · have h2 : ¬ t.map64.isEmpty = true := he ▸ h1
+    simp only [h1, h2, if_false, Bool.false_eq_true] at hst ⊢
+    rw [hst]
+
+theorem index_canonical (a b : List (Nat × Nat)) (ha : InRange a) (hb : InRange b)
+    (h : ∀ p, p ∈ a ↔ p ∈ b) :
+    (recorded a).buildMemberToParent = (recorded b).buildMemberToParent ∧
+    (recorded a).buildParentToMember = (recorded b).buildParentToMember ∧
+    (recorded a).buildIndexes = (recorded b).buildIndexes := by
+  have h1 := m2p_canonical (rep_congr (rep_recorded a ha) h) (rep_recorded b hb)
+  have h2 : (recorded a).buildParentToMember = (recorded b).buildParentToMember := by
+    rw [p2m_eq_m2p, p2m_eq_m2p]
+    refine m2p_canonical (rep_congr (rep_flip (rep_recorded a ha)) fun p => ?_) (rep_flip (rep_recorded b hb))
+    rw [mem_map_swap, mem_map_swap, h]
+  exact ⟨h1, h2, by rw [build_variants_agree, build_variants_agree, h1, h2]⟩
+
+/-- the distinct elements of a list (first occurrences dropped) -/
+def distinct : List (Nat × Nat) → List (Nat × Nat)
+  | [] => []
+  | a :: l => if a ∈ l then distinct l else a :: distinct l
+
+theorem mem_distinct (l : List (Nat × Nat)) (p : Nat × Nat) : p ∈ distinct l ↔ p ∈ l := by
+  induction l with
+  | nil => simp [distinct]
+  | cons a l ih =>
+    unfold distinct
+    by_cases ha : a ∈ l
+    · simp only [ha, if_true, ih, List.mem_cons]
+      constructor
+      · exact Or.inr
+      · rintro (rfl | h)
+        · exact ha
+        · exact h
+    · simp only [ha, if_false, List.mem_cons, ih]
+
+theorem nodup_distinct (l : List (Nat × Nat)) : (distinct l).Nodup := by
+  induction l with
+  | nil => simp [distinct]
+  | cons a l ih =>
+    unfold distinct
+    by_cases ha : a ∈ l
+    · simp only [ha, if_true]; exact ih
+    · rw [if_neg ha]; exact List.nodup_cons.2 ⟨by rw [mem_distinct]; exact ha, ih⟩
+
+theorem swap_swap (p : Nat × Nat) : swap (swap p) = p := rfl
+
+theorem nodup_of_sorted {l : List (Nat × Nat)} (h : l.Pairwise LtP) : l.Nodup := by
+  rw [List.nodup_iff_pairwise_ne]
+  refine h.imp ?_
+  intro a b hab heq
+  subst heq
+  simp only [LtP] at hab; omega
+
+/-- size of the member→parent index of any stash representing `adds` = number of distinct pairs -/
+theorem size_of_rep {s : Stash} {adds : List (Nat × Nat)} (h : Rep s adds) :
+    s.buildMemberToParent.size = (distinct adds).length := by
+  obtain ⟨hsorted, hmem⟩ := store_spec h
+  rw [size_eq_store]
+  apply List.Perm.length_eq
+  rw [List.perm_ext_iff_of_nodup (nodup_of_sorted hsorted) (nodup_distinct _)]
+  intro p; rw [hmem, mem_distinct]
+
+theorem length_distinct_swap (l : List (Nat × Nat)) : (distinct (l.map swap)).length = (distinct l).length := by
+  induction l with
+  | nil => rfl
+  | cons a l ih =>
+    simp only [List.map_cons, distinct]
+    have : swap a ∈ l.map swap ↔ a ∈ l := by rw [mem_map_swap, swap_swap]
+    by_cases ha : a ∈ l
+    · simp only [ha, this.2 ha, if_true, ih]
+    · have hn : ¬ swap a ∈ l.map swap := fun x => ha (this.1 x)
+      simp only [ha, hn, if_false, List.length_cons, ih]
+
+theorem empty_eq_store (ix : Index) : ix.empty = ix.store.isEmpty := by
+  unfold Index.empty Index.store; split <;> rfl
+
+theorem index_sizes (adds : List (Nat × Nat)) (hr : InRange adds) :
+    (recorded adds).buildMemberToParent.size = (distinct adds).length ∧
+    (recorded adds).buildParentToMember.size = (distinct adds).length ∧
+    (recorded adds).buildIndexes.1.size = (distinct adds).length ∧
+    (recorded adds).buildIndexes.2.size = (distinct adds).length := by
+  have h1 := size_of_rep (rep_recorded adds hr)
+  have h2 : (recorded adds).buildParentToMember.size = (distinct adds).length := by
+    rw [p2m_eq_m2p, size_of_rep (rep_flip (rep_recorded adds hr)), length_distinct_swap]
+  rw [build_variants_agree]
+  exact ⟨h1, h2, h1, h2⟩
+
+theorem length_distinct_eq_zero (l : List (Nat × Nat)) : (distinct l).length = 0 ↔ l = [] := by
+  constructor
+  · intro h
+    cases l with
+    | nil => rfl
+    | cons a l =>
+      have : a ∈ distinct (a :: l) := (mem_distinct _ _).2 (by simp)
+      rw [List.length_eq_zero_iff] at h
+      rw [h] at this; simp at this
+  · rintro rfl; rfl
+
+theorem index_empty (adds : List (Nat × Nat)) (hr : InRange adds) :
+    (recorded adds).buildMemberToParent.empty = adds.isEmpty ∧
+    (recorded adds).buildParentToMember.empty = adds.isEmpty := by
+  have key : ∀ ix : Index, ix.size = (distinct adds).length → ix.empty = adds.isEmpty := by
+    intro ix h
+    rw [empty_eq_store, Bool.eq_iff_iff, List.isEmpty_iff, List.isEmpty_iff, ← List.length_eq_zero_iff,
+      ← size_eq_store, h, length_distinct_eq_zero]
+  exact ⟨key _ (index_sizes adds hr).1, key _ (index_sizes adds hr).2.1⟩
+
+/-- multiset form of `LookupExact`: every value is delivered exactly once if recorded, never otherwise -/
+theorem count_of_lookupExact {ix : Index} {pairs : List (Nat × Nat)} {k : Nat} (h : LookupExact ix pairs k)
+    (v : Nat) : (ix.forEach k).count v = if (k, v) ∈ pairs then 1 else 0 := by
+  have hn : (ix.forEach k).Nodup := by
+    rw [List.nodup_iff_pairwise_ne]
+    exact h.1.imp (fun hab => by omega)
+  rw [hn.count]
+  simp only [h.2 v]
+
 end Osmium.RelMap
